@@ -171,6 +171,7 @@ type fwd struct {
 	srcIdx  int // index of the `src` command whose transition forked it
 	h       *rec
 	arrived bool
+	skipped bool          // the handler ended without forwarding
 	parked  chan struct{} // non-nil while parked at the gate
 	// progress of the real call
 	enq      bool
@@ -311,6 +312,30 @@ func (p *Proxy) check(kind string, states am.S, res bool) bool {
 		(*h)["chk"] = map[bool]string{true: "true", false: "false"}[res]
 		(*h)["chkkind"] = kind
 		(*h)["sts"] = nz(states)
+		r.recs = append(r.recs, h)
+	}
+	r.mu.Unlock()
+	return res
+}
+
+// ActiveStates is what BindAny's guard reads since 4d48d95.
+func (p *Proxy) ActiveStates(states am.S) am.S {
+	res := p.Machine.ActiveStates(states)
+	r := p.r
+	if !onHandlerLoop() {
+		return res
+	}
+	r.mu.Lock()
+	if h := r.curH; h != nil {
+		for i := len(r.recs) - 1; i >= 0; i-- {
+			if r.recs[i] == h {
+				r.recs[i] = nil
+				break
+			}
+		}
+		(*h)["chk"] = "read"
+		(*h)["chkkind"] = "active"
+		(*h)["read"] = nz(res)
 		r.recs = append(r.recs, h)
 	}
 	r.mu.Unlock()
@@ -465,7 +490,7 @@ func (t *srcTracer) HandlerStart(tx *am.Transition, emitter string, handler stri
 	defer r.mu.Unlock()
 	f := r.newFwd(nil, r.srcIdx-1)
 	h := r.log(rec{"ev": "h", "tx": tx.Id, "h": handler, "id": f.id, "chk": "none",
-		"fwd": "none", "op": "none", "sts": []string{}, "fargs": false})
+		"fwd": "none", "op": "none", "sts": []string{}, "fargs": false, "read": []string{}})
 	f.h = h
 	r.curH, r.curFwd = h, f
 	r.byKey[tx.Id+"/"+handler] = f
@@ -477,6 +502,10 @@ func (t *srcTracer) HandlerEnd(tx *am.Transition, emitter string, handler string
 		return
 	}
 	r.mu.Lock()
+	if f := r.curFwd; f != nil && !f.arrived && r.curH != nil && (*r.curH)["chk"] == "read" {
+		// the guard read the target's set and the handler ended without a call
+		f.skipped = true
+	}
 	r.curH, r.curFwd = nil, nil
 	r.mu.Unlock()
 	r.ping()
@@ -769,7 +798,7 @@ func (r *Runner) settle(wait time.Duration) bool {
 // needsArrival: a pipe handler ran whose forwarded call has not reached the
 // proxy yet.  A flat handler whose check already held ("true") forwards nothing.
 func (r *Runner) needsArrival(f *fwd) bool {
-	return f.h != nil && !f.arrived && (*f.h)["chk"] != "true"
+	return f.h != nil && !f.arrived && !f.skipped && (*f.h)["chk"] != "true"
 }
 
 func (r *Runner) parkedList() []*fwd {
